@@ -826,6 +826,58 @@ int World::exec_entity(const Op &op) {
     case OP_mk_fitted: return mk_fitted(op);
     case OP_del_misdirected: return del_misdirected(op);
     case OP_replace_member: return replace_member(op);
+    case OP_mk_crowd: {
+        // many entities at once - more than any fixed-size table of a few hundred entries holds - and the program keeps a handle to every
+        // one of them across the next close()
+        if (mode != 0) return 2;
+        static const int sizes[] = {257, 300, 513, 260};
+        int n = sizes[((unsigned) a[1]) % 4];
+        std::string bn = "crowd" + std::to_string(((unsigned) a[0]) % 3);
+        if (f.hasBlock(bn)) return 2;
+        arg_class = "n=" + std::to_string(n);
+        try {
+            Block b = f.createBlock(bn, "t");
+            int kind = ((unsigned) a[2]) % 3;
+            for (int i = 0; i < n; i++) {
+                std::string nm = "m" + std::to_string(i);
+                if (kind == 0) b.createSource(nm, "t");
+                else if (kind == 1) b.createGroup(nm, "t");
+                else b.createTag(nm, "t", std::vector<double>{(double) i});
+            }
+        } catch (const std::exception &) { return 1; }
+        cnt.inc("crowd.built");
+        if (blind) return 0;
+        // ... close (all the C11 oracles of a close apply), reopen, compare - and take the crowd away again, so that the rest of the run
+        // is not spent walking it
+        last = obs(); have_last = true; if (failed()) return 0;
+        hoard_next_close = true;
+        { Op ro; ro.kind = OP_reopen; ro.a[0] = 0; ro.a[1] = a[3] & 1; ro.a[2] = a[4]; ro.sub = op.sub; exec_session(ro); }
+        if (failed() || !is_open) return 0;
+        try { f.deleteBlock(bn); } catch (const std::exception &) { return 1; }
+        last = obs(); have_last = true;
+        return 0;
+    }
+    case OP_force_created: {
+        // a creation time stamped deliberately (forceCreatedAt is public API): the epoch, the second before it, the 32-bit boundary, far
+        // future and past dates, the current simulated second.  Nothing is predicted; the restart differential says whether it survives
+        static const long long ts[] = {0, 1, -1, 2147483647LL, 2147483648LL, 2147483649LL, 4000000000LL, 1000000000LL, -86400LL * 365, 86399, 951782400LL /* 2000-02-29 */, 1709164800LL /* 2024-02-29 */};
+        unsigned sel = ((unsigned) a[3]) % 13;
+        time_t t = sel == 12 ? (time_t) clock_now() : (time_t) ts[sel];
+        arg_class = "t=" + std::to_string((long long) t);
+        must_succeed = "C02.created-at";
+        switch (((unsigned) a[2]) % 10) {
+            case 0: TRY(f.forceCreatedAt(t));
+            case 1: { Block b = blk(a[0]); if (!b) return 2; TRY(b.forceCreatedAt(t)); }
+            case 2: { DataArray x = arr_at(a[0], a[1]); if (!x) return 2; TRY(x.forceCreatedAt(t)); }
+            case 3: { DataFrame x = frame_at(a[0], a[1]); if (!x) return 2; TRY(x.forceCreatedAt(t)); }
+            case 4: { Tag x = tag_at(a[0], a[1]); if (!x) return 2; TRY(x.forceCreatedAt(t)); }
+            case 5: { MultiTag x = mtag_at(a[0], a[1]); if (!x) return 2; TRY(x.forceCreatedAt(t)); }
+            case 6: { Group x = group_at(a[0], a[1]); if (!x) return 2; TRY(x.forceCreatedAt(t)); }
+            case 7: { Source x = source_at(a[0], a[1]); if (!x) return 2; TRY(x.forceCreatedAt(t)); }
+            case 8: { Section x = section_at(a[0]); if (!x) return 2; TRY(x.forceCreatedAt(t)); }
+            default: { Property x = prop_at(a[0], a[1]); if (!x) return 2; TRY(x.forceCreatedAt(t)); }
+        }
+    }
     default: return 2;
     }
 }
